@@ -106,9 +106,11 @@ class Formatter(BasicWalker[Retype]):
         if to_check.endswith("]"):
             level = 1
         while True:
+            closing: str = f"]{'=' * level}]"
             if (
                 f"[{'=' * level}[" not in to_check
-                and f"]{'=' * level}]" not in to_check
+                # the text may also end in a prefix of the closing bracket
+                and closing not in to_check + closing[:-1]
             ):
                 break
             level += 1
